@@ -252,7 +252,7 @@ func checkC01(e *core.Env) {
 		}
 	}
 
-	n := e.N(260, 2600)
+	n := e.N(500, 4000)
 	e.Cases("seq", n, func(i int, r *rand.Rand) {
 		kind := Kind(i % 4)
 		for ci, c := range cs.list {
